@@ -120,7 +120,9 @@ class Roles:
             if role not in self.fn and self.store_adt:
                 c = []
                 for p, f in facts.fns.items():
-                    if f.impl_self_adt == sp['work'] and f.inputs == ['&mut ' + sp['work']] and f.output in ('()', None):
+                    # (`encode_end(&mut self) -> EncoderResult`: the re-packing and the construction of the result in one method)
+                    if f.impl_self_adt == sp['work'] and f.inputs == ['&mut ' + sp['work']] \
+                            and (f.output in ('()', None) or (f.output or '').split('<')[0] == sp['result']):
                         for b, t in f.body.calls():
                             g = facts.fns.get(t['callee'].get('path'))
                             if g is not None and g.impl_self_adt == self.store_adt and len(t['args']) >= 3:
